@@ -126,3 +126,47 @@ theorem dedupAdj_ne_nil [DecidableEq α] {l : List α} (h : l ≠ []) : dedupAdj
     simp at this
 
 end ASV.Refine
+
+/-! ### the same for an order that is total / transitive only on the elements satisfying `P` -/
+namespace ASV.Refine
+variable {α : Type} {le : α → α → Bool} (P : α → Prop)
+
+theorem insertBy_pairwise_on (total : ∀ a b, P a → P b → le a b = true ∨ le b a = true)
+    (trans : ∀ a b c, P a → P b → P c → le a b = true → le b c = true → le a c = true) (a : α) (ha : P a) :
+    ∀ l : List α, (∀ x ∈ l, P x) → l.Pairwise (fun x y => le x y = true) →
+      (insertBy le a l).Pairwise (fun x y => le x y = true)
+  | [], _, _ => by simp [insertBy]
+  | b :: l, hP, h => by
+    simp only [insertBy]
+    rw [List.pairwise_cons] at h
+    have hb : P b := hP b (by simp)
+    have hl : ∀ x ∈ l, P x := fun x hx => hP x (List.mem_cons_of_mem _ hx)
+    split
+    · rename_i hab
+      refine List.Pairwise.cons ?_ (List.Pairwise.cons h.1 h.2)
+      intro x hx
+      rcases List.mem_cons.mp hx with rfl | hx
+      · exact hab
+      · exact trans _ _ _ ha hb (hl x hx) hab (h.1 x hx)
+    · rename_i hab
+      have hba : le b a = true := by
+        rcases total a b ha hb with h1 | h1
+        · exact absurd h1 hab
+        · exact h1
+      refine List.Pairwise.cons ?_ (insertBy_pairwise_on total trans a ha l hl h.2)
+      intro x hx
+      rcases (mem_insertBy le).mp hx with rfl | hx
+      · exact hba
+      · exact h.1 x hx
+
+theorem sortBy_pairwise_on (total : ∀ a b, P a → P b → le a b = true ∨ le b a = true)
+    (trans : ∀ a b c, P a → P b → P c → le a b = true → le b c = true → le a c = true) :
+    ∀ l : List α, (∀ x ∈ l, P x) → (sortBy le l).Pairwise (fun x y => le x y = true)
+  | [], _ => by simp [sortBy]
+  | a :: l, hP => by
+    simp only [sortBy]
+    have hl : ∀ x ∈ l, P x := fun x hx => hP x (List.mem_cons_of_mem _ hx)
+    exact insertBy_pairwise_on P total trans a (hP a (by simp)) _
+      (fun x hx => hl x ((mem_sortBy le).mp hx)) (sortBy_pairwise_on total trans l hl)
+
+end ASV.Refine
